@@ -122,7 +122,7 @@ claim("C06",
       "Tied to /repo by parsing the real Dart files (imports, definitions, uses, classes with implements lists and constructor arguments, union dispatch tables, enum member/value tables) and comparing the tables with the model computed from go/types facts and the observed analysis; "
       "the keys read by fromJson and written by toJson of every class are read from the text and compared with the model (and with the constructor, on the text alone); the file each class, union and enum is found in must be the one the model of analysis.NewLinker assigns to its package (dart_out_file, both GOPATH and non-GOPATH roots); "
       "the link conditions (each used class / typedef / helper defined exactly once in the file or its imports, imports exist, no self import) are evaluated in Coq on the parsed files; "
-      "the generator as a traversal (Model/DartGen.v: cache, declarations per file in append order, import edges) is compared with the declaration lists and import blocks the real generator hands to WriteDeclarations, file by file, and the link condition is evaluated on its output (theorems C06_import_block*, C06_links_closed_means_every_reference_resolves, and C06_traversal_output_is_linked: for every analysis graph the output of the traversal resolves every reference through a used type in the same file or an imported one; the unions a class implements are outside the theorem and are evaluated on every run, see DESIGN 8.1).",
+      "the generator as a traversal (Model/DartGen.v: cache, declarations per file in append order, import edges) is compared with the declaration lists and import blocks the real generator hands to WriteDeclarations, file by file, and the link condition is evaluated on its output (theorems C06_import_block*, C06_links_closed_means_every_reference_resolves, C06_traversal_imports_lead_to_emitted_files (no dangling import edge) and C06_traversal_output_is_linked: for every analysis graph the output of the traversal resolves every reference through a used type in the same file or an imported one; the unions a class implements are outside the theorem and are evaluated on every run, see DESIGN 8.1).",
       "Relative to DartSem (enum conversions only); generated Dart is never executed or analysed (no SDK offline). Trusted: the regex reader of the Dart files.",
       "Coq proof (enum conversion lemmas, key lemma via C09) + parsed-table correspondence + link resolution evaluated in Coq", "DESIGN.md §5 C06")
 
